@@ -126,6 +126,107 @@ CLAIMS.update({
     ),
 })
 
+CLAIMS.update({
+    "C04": (
+        "3/C04",
+        "loop-body path enumeration of the copy routine; size-provenance typestate over getentry paths per handler class; "
+        "partial evaluation of HTTP handle() under HEAD/GET; provenance of the MIME field",
+        "Structural clauses: the copy loop opens the source 'rb' in a with, writes every chunk it read exactly once and "
+        "unchanged and ends only on an empty read; every handler whose write() is not the verbatim copy (or pure delegation) "
+        "leaves the entry's size unset and generated menus are announced with the unknown-length marker, so a Gopher+ length "
+        "header can only be the stat size of bytes that are copied verbatim; HEAD reaches no body-producing call and sends the "
+        "same header writes as GET; the advertised MIME type is adjust(entry.getmimetype()) and the entry's MIME fields hold "
+        "only table/config/constant data. Equality of delivered bytes with file bytes and WML invertibility are not decided.",
+        "Trusted: file read/write semantics; stat size = number of bytes a verbatim copy sends (no concurrent modification).",
+    ),
+    "C05": (
+        "3/C05",
+        "writer/reader table agreement: codec parameters of each protocol's URL encoder vs. its request decoder; "
+        "prefix/separator/flag constants on the rendering and parsing side",
+        "Render/parse agreement only: each URL-based protocol percent-encodes local selectors with exactly the codec its request "
+        "parser decodes with (one layer, safe characters exclude the parser's separators); the WAP prefix and Gemini query "
+        "prefix are the same value on both sides; the virtual-selector separator emitted is one the parser splits on; child "
+        "selectors are selectorbase/name resolved through the handler chain on the same VFS; folder handlers number and flag "
+        "messages the way the message handlers parse them. That every followed link succeeds is behavioural and not decided.",
+        "Trusted: urllib quote/unquote are inverse for equal codec parameters.",
+    ),
+    "C06": (
+        "3/C06",
+        "who-defines check over the protocol hierarchy; loop-body path enumeration of the shared directory walk; "
+        "must-pass-through (slashnormalize before handler selection); decode-parameter agreement; constant evaluation of the MIME adjusters",
+        "Structural clauses: all protocols share one directory walk in which every entry is rendered by renderobjinfo and written "
+        "exactly once, unconditionally; every selector reaching handler selection went through slashnormalize(), which yields a "
+        "leading '/' on every path; every protocol decodes request text (percent-encoding, query strings, request bodies, the "
+        "request line) as UTF-8 with surrogateescape; each protocol's adjust function maps the menu type to its own listing type "
+        "and is total. Equality of the rendered listings is not decided.",
+        "Trusted: Python codec semantics.",
+    ),
+    "C07": (
+        "3/C07",
+        "event-order analysis (fill < sort < build); order-sensitivity summaries of loop bodies per concrete class; "
+        "reachability of the ignore-pattern reader from handler tests; partial evaluation under 'name starts with a dot'",
+        "Structural clauses: entries are built from a sorted name list; every loop over listdir() either iterates a sorted "
+        "sequence or has an order-insensitive body for every concrete class (with its hook overrides); the ignore pattern is "
+        "consulted only while listing; dot-files never enter the UMN listing; the comparator is pure and reads only name/number; "
+        "a name is appended once, iff the filter accepted it. Set equality with the directory contents is not decided.",
+        "Trusted: list.sort is deterministic for strings.",
+    ),
+    "C08": (
+        "3/C08",
+        "abstract evaluation of the comparator (entrycmp/sgn/cmp inlined) on representatives of every order type",
+        "Ordering clause only: the comparator touches its arguments only through comparisons, so evaluating its body on "
+        "representatives of all 25 x 3 order types of (num1, num2, 0) x (title1 ? title2) is exhaustive; the results are checked "
+        "against the documented bucket order (numbered ascending, unnumbered by title, negative last) and antisymmetry, and the "
+        "final sort is shown to use this comparator after the merge. Link-file parsing, merge, .cap, Host=+ and abstracts have no "
+        "structural proxy and are not decided.",
+        "Trusted: the walker's constant folding of comparisons and integer arithmetic.",
+    ),
+    "C14": (
+        "3/C14",
+        "request-path reachability closure + global-write/in-place-mutation rules; path enumeration of the worker entry points "
+        "with injected exceptions",
+        "Race-freedom by construction: every module-level write reachable while serving is a guarded idempotent lazy "
+        "initialisation from configuration; no in-place mutation of module-level, class-level, interpreter-wide or server-object "
+        "state; protocol and handler objects are constructed per request and not stored in shared state; the header cache is per "
+        "connection; the fork child always _exit()s, the parent records the child, closes its copy and returns; the thread worker "
+        "reports errors and always shuts down. Equality of concurrent and sequential responses under all interleavings is not decided.",
+        "Trusted: CPython's GIL makes a single name rebinding atomic; cache-file sharing is covered by C11.",
+    ),
+    "C15": (
+        "3/C15",
+        "callee-resolution check (MRO-aware) for +INFO; dispatch-table totality; shared rules R04b and R13d; reader-shape check of the sidecar routine",
+        "Structural clauses: +INFO is '+INFO: ' plus the output of the very function that renders plain Gopher menu lines; every "
+        "advertised fixed block has its renderer and one block is added per extended attribute; the length prefix of a + request "
+        "describes the body or is the unknown marker (R04b); attribute content lines carry the one-space prefix (R13d); sidecar "
+        "files are read per configured extension in text mode, right-stripped and newline-joined. Sidecar line fidelity beyond "
+        "that is not decided.",
+        "Trusted: as for C04 and C13.",
+    ),
+    "C17": (
+        "3/C17",
+        "table agreement between compiler and interpreter (opcodes, tuple positions, save/restore field lists); path "
+        "enumeration of every command handler; narrowed-attribute existence; sibling discriminator agreement",
+        "Structural clause only ('every compiled program is structurally well-formed' and the order of operations): every opcode "
+        "the compiler emits has an interpreter handler; opcode values follow the TAL order of operations and the commands on an "
+        "element are sorted before emission; each handler jumps through the tuple position where the compiler stored the "
+        "end-of-element symbol, which is defined right before the end-scope command; a scope is opened for every element that "
+        "gets a symbol; pushed and restored state tuples agree field by field; every handler path moves the program counter. "
+        "That expansion equals the TAL/TALES specification is not decided.",
+        "Trusted: the list of TAL 1.4 operation priorities.",
+    ),
+    "C18": (
+        "3/C18",
+        "write-site classification with reachability under the structure flag; reachability of eval under the python-path flag; "
+        "flag/pop pairing by partial evaluation",
+        "Structural clauses: every interpreter write is template text, a tag whose attribute values are html.escape(quote=True)'d, "
+        "or an html.escape'd result - a raw result only where the template asked for structure; with allowPythonPath false no "
+        "eval/exec is reachable anywhere in simpletal, the flag is stored unchanged and the TAL handler passes the configured "
+        "option; every pushLocals/addRepeat sets a flag that is saved per element and every popLocals/removeRepeat runs only under "
+        "it. Pass-through fidelity, idempotence and context equality are not decided.",
+        "Trusted: html.escape semantics; simpleTALUtils is not on the expansion path.",
+    ),
+})
+
 NOT_APPLICABLE = {
     "C09": "input/output relation of the gophermap line parser against a reference reading of the file; no structural "
            "invariant short of re-implementing (i.e. running) the parser - static analysis cannot decide it (DESIGN.md section 4)",
